@@ -406,6 +406,32 @@ theorem step_reported (g : Cfg) (s : S) (op : Op) (hd : InvD g s) (ho : (step g 
         · rw [(c01_flush_transmits_only g s1 ks).1]; simpa using h1
       · simpa using h1
   | evEnd => show (evEnd g s).accepted = s.accepted ++ []; rw [accepted_evEnd]; simp
+  | evConnEnd =>
+    show (evConnEnd g s).accepted = s.accepted ++ []
+    unfold evConnEnd
+    split
+    · simp
+    · split
+      · have := D_cResetRead g { s with connecting := false, connEv := false }
+        simp only [D, Prod.mk.injEq] at this; simp [this.2.2.2.2.2]
+      · simp
+  | evRearm =>
+    show (evRearm g s).accepted = s.accepted ++ []
+    unfold evRearm
+    split
+    · simp
+    · split
+      · have := D_resetPollerEvent g { s with rearm := false }
+        simp only [D, Prod.mk.injEq] at this; simp [this.2.2.2.2.2]
+      · simp
+  | evErrClose =>
+    show (evErrClose s).accepted = s.accepted ++ []
+    unfold evErrClose
+    split
+    · simp
+    · split
+      · split <;> simp [flipWE, flip, stopTimer]
+      · simp
   | flipClosed =>
     show (flipClosed s).accepted = s.accepted ++ []
     unfold flipClosed; split <;> simp [flipWE, flip, stopTimer]
